@@ -32,7 +32,13 @@ VARIABLES
   \* @type: Int;
   hi,
   \* @type: Int;
-  peers
+  peers,
+  \* @type: Int;
+  chunk,        \* chunk_size (a variable, not a definition: Apalache inlines definitions)
+  \* @type: Int -> Int;
+  s,            \* s[i], e[i]: the sub-range of index i
+  \* @type: Int -> Int;
+  e
 
 I64MIN == -9223372036854775808
 I64MAX == 9223372036854775807
@@ -55,37 +61,43 @@ Div(x, p) == IF p = 1 THEN x ELSE IF p = 2 THEN x \div 2 ELSE IF p = 3 THEN x \d
 
 (* Rust's `/` truncates towards zero (matters for reversed ranges only: InitAll) *)
 TruncDiv(x, p) == IF x >= 0 THEN Div(x, p) ELSE 0 - Div(0 - x, p)
-Chunk == TruncDiv(SatAdd(hi - lo, peers - 1), peers)
-Prod(i) == IF Chunk >= 0 THEN Mul(Chunk, i) ELSE 0 - Mul(0 - Chunk, i)
-S(i) == SatAdd(lo, Prod(i))
-E(i) == Max2(Min2(SatAdd(S(i), Chunk), hi), lo)
-(* a call panics: overflow of index * chunk, or (body B) a result outside the value type *)
-Panics(i) == Prod(i) > CMAX \/ Prod(i) < CMIN \/ (BODY = "A" /\ hi < lo) \/ (BODY = "B" /\ (S(i) < TMIN \/ S(i) > TMAX \/ E(i) < TMIN \/ E(i) > TMAX))
-
 Idx == 0..5
+Prod(i) == IF chunk >= 0 THEN Mul(chunk, i) ELSE 0 - Mul(0 - chunk, i)
+(* a call panics: overflow of index * chunk, `end - start` of body A, or (body B) a result outside *)
+(* the value type                                                                                  *)
+Panics(i) == Prod(i) > CMAX \/ Prod(i) < CMIN \/ (BODY = "A" /\ hi < lo)
+             \/ (BODY = "B" /\ (s[i] < TMIN \/ s[i] > TMAX \/ e[i] < TMIN \/ e[i] > TMAX))
+
 Act(i) == i < peers
-NonEmpty(i) == Act(i) /\ S(i) < E(i)
-In(c, i) == NonEmpty(i) /\ S(i) <= c /\ c < E(i)
+NonEmpty(i) == Act(i) /\ s[i] < e[i]
+In(c, i) == NonEmpty(i) /\ s[i] <= c /\ c < e[i]
 
 NearMax == lo < hi /\ lo + Mul(Div(hi - lo + peers - 1, peers), peers - 1) > TMAX
+
+Compute == /\ chunk = TruncDiv(SatAdd(hi - lo, peers - 1), peers)
+           /\ s = [i \in Idx |-> SatAdd(lo, Prod(i))]
+           /\ e = [i \in Idx |-> Max2(Min2(SatAdd(s[i], chunk), hi), lo)]
 
 Init == /\ lo \in Int /\ hi \in Int /\ peers \in 1..6
         /\ TMIN <= lo /\ lo <= TMAX /\ TMIN <= hi /\ hi <= TMAX
         /\ lo <= hi                    \* reversed ranges: finding F1
         /\ hi - lo <= MAXELEMS
         /\ ~NearMax                    \* finding F11 (never true when T = C)
+        /\ Compute
 (* without the carve-out for reversed ranges: Apalache must report the F1 counterexample *)
 InitAll == /\ lo \in Int /\ hi \in Int /\ peers \in 1..6
            /\ TMIN <= lo /\ lo <= TMAX /\ TMIN <= hi /\ hi <= TMAX
            /\ hi - lo <= MAXELEMS /\ lo - hi <= MAXELEMS
            /\ ~NearMax
-Next == UNCHANGED <<lo, hi, peers>>
+           /\ Compute
+Next == UNCHANGED <<lo, hi, peers, chunk, s, e>>
 
 NoPanic == \A i \in Idx : Act(i) => ~Panics(i)
-NoOverlap == \A i \in Idx : \A j \in Idx : (i # j /\ NonEmpty(i) /\ NonEmpty(j)) => ~(Max2(S(i), S(j)) < Min2(E(i), E(j)))
+NoOverlap == \A i \in Idx : \A j \in Idx :
+               (i # j /\ NonEmpty(i) /\ NonEmpty(j)) => ~(Max2(s[i], s[j]) < Min2(e[i], e[j]))
 Covered(c) == (lo <= c /\ c < hi) => \E i \in Idx : In(c, i)
-NoGap == Covered(lo) /\ \A i \in Idx : NonEmpty(i) => Covered(E(i))
-NoExtra == \A i \in Idx : NonEmpty(i) => (lo <= S(i) /\ E(i) <= hi)
+NoGap == Covered(lo) /\ \A i \in Idx : NonEmpty(i) => Covered(e[i])
+NoExtra == \A i \in Idx : NonEmpty(i) => (lo <= s[i] /\ e[i] <= hi)
 EmptyYieldsNothing == lo >= hi => \A i \in Idx : ~NonEmpty(i)
 
 C15_Range == NoPanic /\ NoOverlap /\ NoGap /\ NoExtra /\ EmptyYieldsNothing
